@@ -1,1 +1,141 @@
+(* Invariants, refinement and progress facts for the SearchableObjectHolder model (property C17). *)
+From Coq Require Import List Arith ZArith Lia Bool.
+Import ListNotations.
 From GV Require Import Sched Events SOHModel.
+Local Open Scope Z_scope.
+
+Notation sysS := (sys glob loc).
+
+(* ====================================================================== *)
+(* A. strictly sorted association lists                                    *)
+(* ====================================================================== *)
+Definition keys {A} (m : list (Z * A)) : list Z := map fst m.
+Fixpoint sorted {A} (m : list (Z * A)) : Prop :=
+  match m with
+  | [] => True
+  | (k, _) :: r => (forall k', In k' (keys r) -> k < k') /\ sorted r
+  end.
+
+Lemma lookup_none {A} k (m : list (Z * A)) : lookup k m = None <-> ~ In k (keys m).
+Proof.
+  induction m as [|[k' v] r IH]; cbn; [tauto|].
+  destruct (Z.eqb_spec k' k) as [->|Hne]; split; intros H; try discriminate.
+  - exfalso. apply H. auto.
+  - intros [E|E]; [congruence|]. apply IH in H. auto.
+  - apply IH. intros E. apply H. auto.
+Qed.
+Lemma lookup_some_in {A} k v (m : list (Z * A)) : lookup k m = Some v -> In (k, v) m.
+Proof.
+  induction m as [|[k' v'] r IH]; cbn; [discriminate|].
+  destruct (Z.eqb_spec k' k) as [->|Hne]; intros H; [inversion H; auto|auto].
+Qed.
+Lemma lookup_some_key {A} k v (m : list (Z * A)) : lookup k m = Some v -> In k (keys m).
+Proof. intros H. apply lookup_some_in in H. apply (in_map fst) in H. exact H. Qed.
+Lemma in_lookup {A} k v (m : list (Z * A)) : sorted m -> In (k, v) m -> lookup k m = Some v.
+Proof.
+  induction m as [|[k' v'] r IH]; cbn; [tauto|]. intros [Hlt Hs] [E|Hin].
+  - inversion E; subst. rewrite Z.eqb_refl. reflexivity.
+  - destruct (Z.eqb_spec k' k) as [->|Hne]; [|auto].
+    exfalso. specialize (Hlt k (in_map fst _ _ Hin)). lia.
+Qed.
+
+Lemma keys_ins {A} k (v : A) m k' : In k' (keys (ins k v m)) <-> k' = k \/ In k' (keys m).
+Proof.
+  induction m as [|[k0 v0] r IH]; cbn; [intuition|].
+  destruct (Z.ltb_spec k k0); cbn; [intuition|].
+  destruct (Z.eqb_spec k k0) as [->|Hne]; cbn; [intuition|]. rewrite IH. intuition.
+Qed.
+Lemma sorted_ins {A} k (v : A) m : sorted m -> sorted (ins k v m).
+Proof.
+  induction m as [|[k0 v0] r IH]; cbn; [intuition|]. intros [Hlt Hs].
+  destruct (Z.ltb_spec k k0); cbn.
+  - repeat split; auto. intros k' [E|Hin]; [lia|]. specialize (Hlt _ Hin). lia.
+  - destruct (Z.eqb_spec k k0) as [->|Hne]; cbn; [auto|]. split; [|auto].
+    intros k' Hin. apply keys_ins in Hin. destruct Hin as [->|Hin]; [lia|auto].
+Qed.
+Lemma keys_put {A} k (v : A) m k' : In k' (keys (put k v m)) <-> k' = k \/ In k' (keys m).
+Proof.
+  induction m as [|[k0 v0] r IH]; cbn; [intuition|].
+  destruct (Z.ltb_spec k k0); cbn; [intuition|].
+  destruct (Z.eqb_spec k k0) as [->|Hne]; cbn; [intuition|]. rewrite IH. intuition.
+Qed.
+Lemma sorted_put {A} k (v : A) m : sorted m -> sorted (put k v m).
+Proof.
+  induction m as [|[k0 v0] r IH]; cbn; [intuition|]. intros [Hlt Hs].
+  destruct (Z.ltb_spec k k0); cbn.
+  - repeat split; auto. intros k' [E|Hin]; [lia|]. specialize (Hlt _ Hin). lia.
+  - destruct (Z.eqb_spec k k0) as [->|Hne]; cbn; [auto|]. split; [|auto].
+    intros k' Hin. apply keys_put in Hin. destruct Hin as [->|Hin]; [lia|auto].
+Qed.
+Lemma keys_del_sub {A} k (m : list (Z * A)) k' : In k' (keys (del k m)) -> In k' (keys m).
+Proof.
+  induction m as [|[k0 v0] r IH]; cbn; [tauto|].
+  destruct (Z.eqb_spec k0 k); cbn; intuition.
+Qed.
+Lemma sorted_del {A} k (m : list (Z * A)) : sorted m -> sorted (del k m).
+Proof.
+  induction m as [|[k0 v0] r IH]; cbn; [tauto|]. intros [Hlt Hs].
+  destruct (Z.eqb_spec k0 k); cbn; [auto|]. split; [|auto].
+  intros k' Hin. apply keys_del_sub in Hin. auto.
+Qed.
+
+Lemma lookup_ins {A} k (v : A) m k' : sorted m ->
+  lookup k' (ins k v m) = if k' =? k then (match lookup k m with Some x => Some x | None => Some v end) else lookup k' m.
+Proof.
+  induction m as [|[k0 v0] r IH]; cbn.
+  - intros _. rewrite (Z.eqb_sym k k'). destruct (k' =? k); reflexivity.
+  - intros [Hlt Hs]. destruct (Z.ltb_spec k k0); cbn.
+    + rewrite (Z.eqb_sym k k'). destruct (Z.eqb_spec k' k) as [->|Hne].
+      * destruct (Z.eqb_spec k0 k); [lia|].
+        assert (lookup k r = None) as ->; [|reflexivity].
+        apply lookup_none. intros Hin. specialize (Hlt _ Hin). lia.
+      * reflexivity.
+    + destruct (Z.eqb_spec k k0) as [->|Hne]; cbn.
+      * destruct (Z.eqb_spec k' k0) as [->|Hne']; [rewrite Z.eqb_refl|]; reflexivity.
+      * rewrite (IH Hs). destruct (Z.eqb_spec k0 k'), (Z.eqb_spec k' k), (Z.eqb_spec k0 k); try lia; reflexivity.
+Qed.
+Lemma lookup_put {A} k (v : A) m k' : sorted m ->
+  lookup k' (put k v m) = if k' =? k then Some v else lookup k' m.
+Proof.
+  induction m as [|[k0 v0] r IH]; cbn.
+  - intros _. rewrite (Z.eqb_sym k k'). reflexivity.
+  - intros [Hlt Hs]. destruct (Z.ltb_spec k k0); cbn.
+    + rewrite (Z.eqb_sym k k'). reflexivity.
+    + destruct (Z.eqb_spec k k0) as [->|Hne]; cbn.
+      * rewrite (Z.eqb_sym k0 k'). destruct (k' =? k0); reflexivity.
+      * rewrite (IH Hs). destruct (Z.eqb_spec k0 k'), (Z.eqb_spec k' k); try lia; reflexivity.
+Qed.
+Lemma lookup_del {A} k (m : list (Z * A)) k' : sorted m ->
+  lookup k' (del k m) = if k' =? k then None else lookup k' m.
+Proof.
+  induction m as [|[k0 v0] r IH]; cbn.
+  - intros _. destruct (k' =? k); reflexivity.
+  - intros [Hlt Hs]. destruct (Z.eqb_spec k0 k) as [->|Hne]; cbn.
+    + destruct (Z.eqb_spec k' k) as [->|Hne'].
+      * apply lookup_none. intros Hin. specialize (Hlt _ Hin). lia.
+      * destruct (Z.eqb_spec k k'); [lia|reflexivity].
+    + rewrite (IH Hs). destruct (Z.eqb_spec k0 k'), (Z.eqb_spec k' k); try lia; reflexivity.
+Qed.
+
+(* position of an iterator: the map splits around the node with key k *)
+Lemma sorted_app_inv {A} (pre : list (Z * A)) k p suf : sorted (pre ++ (k, p) :: suf) ->
+  ~ In k (keys pre) /\ sorted ((k, p) :: suf).
+Proof.
+  induction pre as [|[k0 v0] r IH]; cbn; [tauto|]. intros [Hlt Hs].
+  destruct (IH Hs) as [Hn Hs']. split; [|exact Hs'].
+  intros [E|Hin]; [|auto]. subst.
+  specialize (Hlt k). unfold keys in Hlt. rewrite map_app in Hlt. cbn in Hlt.
+  assert (k < k) by (apply Hlt; apply in_or_app; right; left; reflexivity). lia.
+Qed.
+Lemma lookup_split {A} (pre : list (Z * A)) k p suf : sorted (pre ++ (k, p) :: suf) ->
+  lookup k (pre ++ (k, p) :: suf) = Some p.
+Proof. intros H. apply in_lookup; [exact H|]. apply in_or_app. right. left. reflexivity. Qed.
+Lemma next_key_split {A} (pre : list (Z * A)) k p suf : sorted (pre ++ (k, p) :: suf) ->
+  next_key k (pre ++ (k, p) :: suf) = first_key suf.
+Proof.
+  induction pre as [|[k0 v0] r IH]; cbn.
+  - intros _. rewrite Z.eqb_refl. reflexivity.
+  - intros [Hlt Hs]. destruct (Z.eqb_spec k0 k) as [->|Hne]; [|auto].
+    exfalso. specialize (Hlt k). unfold keys in Hlt. rewrite map_app in Hlt. cbn in Hlt.
+    assert (k < k) by (apply Hlt; apply in_or_app; right; left; reflexivity). lia.
+Qed.
